@@ -106,7 +106,16 @@ struct Inner<C> {
 
 struct PublishInfo {
     inflight: HashSet<num::NonZeroU16>,
+    /// `QoS` 2 publishes that are acknowledged with PUBREC and wait for PUBREL
+    pubrel: HashSet<num::NonZeroU16>,
     aliases: HashMap<num::NonZeroU16, ByteString>,
+}
+
+impl PublishInfo {
+    fn remove(&mut self, id: num::NonZeroU16) {
+        self.inflight.remove(&id);
+        self.pubrel.remove(&id);
+    }
 }
 
 impl<T, C, E> Dispatcher<T, C, E>
@@ -131,6 +140,7 @@ where
                 info: RefCell::new(PublishInfo {
                     aliases: HashMap::default(),
                     inflight: HashSet::default(),
+                    pubrel: HashSet::default(),
                 }),
             }),
         }
@@ -232,13 +242,18 @@ where
 
                         // check for duplicated packet id
                         if !inner.inflight.insert(pid) {
-                            let _ = self.inner.sink.encode_packet(codec::Packet::PublishAck(
-                                codec::PublishAck {
-                                    packet_id: pid,
-                                    reason_code: codec::PublishAckReason::PacketIdentifierInUse,
-                                    ..Default::default()
+                            let ack = codec::PublishAck {
+                                packet_id: pid,
+                                reason_code: codec::PublishAckReason::PacketIdentifierInUse,
+                                ..Default::default()
+                            };
+                            let _ = self.inner.sink.encode_packet(
+                                if publish.qos == QoS::ExactlyOnce {
+                                    codec::Packet::PublishReceived(ack)
+                                } else {
+                                    codec::Packet::PublishAck(ack)
                                 },
-                            ));
+                            );
                             return Ok(None);
                         }
                     }
@@ -328,8 +343,9 @@ where
                 Ok(None)
             }
             Decoded::Packet(Packet::PublishRelease(ack), size) => {
-                if self.inner.info.borrow().inflight.contains(&ack.packet_id) {
-                    self.inner.control(ProtocolMessage::pubrel(ack, size)).await
+                if self.inner.info.borrow().pubrel.contains(&ack.packet_id) {
+                    let id = ack.packet_id;
+                    self.inner.control_pkt(ProtocolMessage::pubrel(ack, size), id.get()).await
                 } else {
                     Ok(Some(Encoded::Packet(codec::Packet::PublishComplete(
                         codec::PublishAck2 {
@@ -457,7 +473,7 @@ impl<C> Inner<C> {
         let result = match self.control.call(pkt).await {
             Ok(result) => {
                 if let Some(id) = num::NonZeroU16::new(packet_id) {
-                    self.info.borrow_mut().inflight.remove(&id);
+                    self.info.borrow_mut().remove(id);
                 }
                 result
             }
@@ -520,6 +536,12 @@ where
 
     if let Some(id) = num::NonZeroU16::new(packet_id) {
         let ack = if qos2 {
+            if (ack.reason_code as u8) < 0x80 {
+                inner.info.borrow_mut().pubrel.insert(id);
+            } else {
+                // exchange is completed, PUBREL is not expected
+                inner.info.borrow_mut().remove(id);
+            }
             codec::Packet::PublishReceived(codec::PublishAck {
                 packet_id: id,
                 reason_code: ack.reason_code,
@@ -527,7 +549,7 @@ where
                 properties: ack.properties,
             })
         } else {
-            inner.info.borrow_mut().inflight.remove(&id);
+            inner.info.borrow_mut().remove(id);
             codec::Packet::PublishAck(codec::PublishAck {
                 packet_id: id,
                 reason_code: ack.reason_code,
